@@ -10,4 +10,5 @@ import TlxVerif.Props.C10
 #print axioms TlxVerif.C10.pool_idle_count
 #print axioms TlxVerif.C10.pool_stuck_is_at_rest
 #print axioms TlxVerif.C10.pool_thrown_jobs_counted
-#print axioms TlxVerif.C10.pool_done_le_finished
+#print axioms TlxVerif.C10.pool_done_le_destroyed
+#print axioms TlxVerif.C10.pool_destroy_job_point
